@@ -428,6 +428,7 @@ func genC02(g *Gen) {
 		w := U64s(ws)
 		g.Do("bitmap.Select32", L(w, Int(i)), key)
 		g.Do("bitmap.Select32R64", L(w, Int(i)), key)
+		c02uSel(g, w, i, key) // the unexported single-result variant on the same case (harness/c02u.go)
 	}
 	selAll := func(ws []uint64, bucket string) {
 		os := c02Ones(ws)
@@ -444,6 +445,9 @@ func genC02(g *Gen) {
 		}
 		g.Do("bitmap.IndexSelect32", L(w), key)
 		g.Do("bitmap.IndexSelect32R64", L(w), key)
+		if len(ws) <= 70 {
+			c02uSentinels(g, ws) // select32single outside [0, n): -1 / 64*len (harness/c02u.go)
+		}
 	}
 
 	// widened ops: rank(select(i)) and select(rank(p))
@@ -616,6 +620,7 @@ func genC02(g *Gen) {
 						seen[i] = true
 						g.Do("bitmap.Select32/rle", L(txt, Int(i)), key)
 						g.Do("bitmap.Select32R64/rle", L(txt, Int(i)), key)
+						c02uRle(g, txt, i, key)
 					}
 				}
 				try(0)
@@ -654,6 +659,24 @@ func genC02(g *Gen) {
 				try(g.R.Intn(cnt))
 			}
 		}
+	}
+
+	// (R2) ONE bitmap of 2^17+3 words in BOTH tiers (seeded change C02-c02c-m2: a rank index that is counted in
+	// parallel from 2^17 words on and leaves the last len%parts entries without the preceding chunks' totals): one
+	// 1-bit per word and two in each of the last three words, queries in the last three words.  These are also the
+	// slowest cases of the run, so ./check re-runs them under GOMAXPROCS 3/33/97.
+	{
+		n := 1<<17 + 3
+		runs := []c02Run{{n - 3, 1 << 63}, {3, 0x8000000000000001}}
+		txt := c02RunsText(runs)
+		cnt := n + 3
+		key := fmt.Sprintf("rle/lastwords/nw%d", n)
+		g.Stat("rle-lastwords")
+		g.Do("bitmap.IndexSelect32R64/rle", L(txt), key)
+		for _, i := range []int{cnt - 1, cnt - 4, cnt - 6} {
+			g.Do("bitmap.Select32R64/rle", L(txt, Int(i)), key)
+		}
+		g.Do("bitmap.Select32/rle", L(txt, Int(cnt-2)), key)
 	}
 
 	// (H) held indexes over ASCENDING bitmap lengths 1..70, first thing in the run: an index that
@@ -983,4 +1006,7 @@ func genC02(g *Gen) {
 			held(ws, os, g.R.Intn(cnt), "held-index-large")
 		}
 	}
+
+	// (U) the unexported helpers: indexSelectU64 / selectU64Indexed / select8Lookup / select32single (harness/c02u.go)
+	genC02u(g)
 }
